@@ -146,6 +146,9 @@ _bk_gen, _bk_chk = build.backend_dimension(0.12)
 gen_case = _bk_gen(gen_case)
 check_case = _bk_chk(check_case)
 
+# no clause depends on the coordinate unit: 8 % of the planar cases are expressed in a small unit (everything x 2^-7..2^-17)
+gen_case = mcase.scale_dimension(0.08)(gen_case)
+
 TECHNIQUE = "runtime monitoring: differential monitor, one-shot run vs incremental extension histories at every cut of the trace"
 LEVEL_TEXT = ("{Q} (quick) / {T} (thorough) traces x ~10 cut sets each (all single splits, all cut sets for n<=5): index, best probability and best "
               "path of the incremental history must equal the one-shot result (paths up to exact ties); extension-only runs without width are also held to the non-emitting filter invariant of C07 "
